@@ -386,6 +386,7 @@ func tryNormalForms(id, tier, repo string, rep *Report, known *KnownFile) (*Repo
 			for _, o := range open {
 				was = append(was, o.Rule+" | "+o.Key)
 			}
+			rep2.overlay = nf.overlay
 			rep2.Notes = append(rep2.Notes, fmt.Sprintf("decided on a normal form of the source (%s): %s inlined at their call sites; on the text as written %d obligations were not discharged: %s", v.name, strings.Join(nf.inlined, ", "), len(open), strings.Join(was, "; ")))
 			fmt.Printf("NORMAL-FORM: property=%s decided with %s inlined (%d obligations open on the text as written)\n", id, strings.Join(nf.inlined, ", "), len(open))
 			return rep2, map[string]interface{}{"selection": v.name, "inlined": nf.inlined, "left_alone": nf.kept, "open_on_the_text_as_written": was}
